@@ -2,219 +2,6 @@
     run as decision skeletons (theories/Gen2.v, [gen_next_*]: flags -> option tag * list reason), agree with the model's flow:
     whenever the model's [proceed] succeeds, the state it moves to (or "stays") is the one the translated decision yields from the
     model's own flags, and the close reasons it adds on the way are the ones the translated code adds. *)
-From Coq Require Import Lia.
-From Hoot Require Import Base Chunk Body Httparse Parser Url Request Call Flow GenLib Gen Gen2.
-Open Scope N_scope.
-
-(** Adding the reasons of a list in order, each at most once ([add_close_reason]). *)
-Fixpoint add_all (rs : list reason) (l : list reason) : res (list reason) :=
-  match l with
-  | [] => Ok rs
-  | r :: t => do rs' <- add_reason rs r; add_all rs' t
-  end.
-
-Definition close_flag (f : inner) : bool :=
-  match c_reader (i_call f) with Some r => reader_is_close r | None => false end.
-
-(** The translated decisions as tables: proved by evaluating the generated (closed, boolean) functions on every combination of
-    flags, hence independent of how the source nests or orders its tests. *)
-Lemma gen_next_send_request_table cp ssb aw :
-  gen_next_send_request cp ssb aw =
-  (if negb cp then None else Some (if ssb then (if aw then TAwait100 else TSendBody) else TRecvResponse), []).
-Proof. destruct cp, ssb, aw; reflexivity. Qed.
-Lemma gen_next_await_100_table ssb : gen_next_await_100 ssb = (Some (if ssb then TSendBody else TRecvResponse), []).
-Proof. destruct ssb; reflexivity. Qed.
-Lemma gen_next_send_body_table cp : gen_next_send_body cp = (if negb cp then None else Some TRecvResponse, []).
-Proof. destruct cp; reflexivity. Qed.
-Lemma gen_next_recv_response_table cp nb cd ir :
-  gen_next_recv_response cp nb cd ir =
-  if negb cp then (None, [])
-  else if nb then (Some TRecvBody, if cd then [CloseDelimitedBody] else [])
-  else (Some (if ir then TRedirect else TCleanup), []).
-Proof. destruct cp, nb, cd, ir; reflexivity. Qed.
-Lemma gen_next_recv_body_table cp ir :
-  gen_next_recv_body cp ir = (if negb cp then None else Some (if ir then TRedirect else TCleanup), []).
-Proof. destruct cp, ir; reflexivity. Qed.
-
-Lemma gen_next_send_request_ok f r :
-  send_request_proceed f = Ok r ->
-  exists cp, send_request_can_proceed f = Ok cp /\
-             fst (gen_next_send_request cp (i_should_send_body f) (i_await_100 f)) = option_map fst r /\
-             snd (gen_next_send_request cp (i_should_send_body f) (i_await_100 f)) = [].
-Proof.
-  unfold send_request_proceed.
-  destruct (send_request_can_proceed f) as [cp|e|s]; cbn [bind]; try discriminate.
-  intros H. exists cp. split; [reflexivity|]. rewrite gen_next_send_request_table.
-  destruct cp; cbn [negb] in *.
-  - destruct (i_should_send_body f).
-    + destruct (i_await_100 f).
-      * inversion H; subst; split; reflexivity.
-      * destruct (analyze_request (i_call f)); cbn [bind] in H; try discriminate. inversion H; subst; split; reflexivity.
-    + destruct (i_holder f); try discriminate.
-      destruct (into_receive (i_call f)); try discriminate. inversion H; subst; split; reflexivity.
-  - inversion H; subst; split; reflexivity.
-Qed.
-
-Lemma gen_next_await_100_ok f t f' :
-  await_100_proceed f = Ok (t, f') ->
-  gen_next_await_100 (i_should_send_body f) = (Some t, []).
-Proof.
-  rewrite gen_next_await_100_table. unfold await_100_proceed.
-  destruct (i_should_send_body f).
-  - destruct (analyze_request (i_call f)); cbn [bind]; try discriminate. intros H; inversion H; subst; reflexivity.
-  - destruct (i_holder f); try discriminate. intros H; inversion H; subst; reflexivity.
-Qed.
-
-Lemma gen_next_send_body_ok f r :
-  send_body_proceed f = Ok r ->
-  exists cp, send_body_can_proceed f = Ok cp /\ gen_next_send_body cp = (option_map fst r, []).
-Proof.
-  unfold send_body_proceed.
-  destruct (send_body_can_proceed f) as [cp|e|s]; cbn [bind]; try discriminate.
-  intros H. exists cp. split; [reflexivity|]. rewrite gen_next_send_body_table.
-  destruct cp; cbn [negb] in *.
-  - destruct (into_receive (i_call f)); try discriminate. inversion H; subst; reflexivity.
-  - inversion H; subst; reflexivity.
-Qed.
-
-Lemma is_redirect_set_call_holder f c h : is_redirect (set_call_holder f c h) = is_redirect f.
-Proof. reflexivity. Qed.
-
-Lemma gen_next_recv_response_ok f r :
-  recv_response_proceed f = Ok r ->
-  exists cp, recv_response_can_proceed f = Ok cp /\
-    let g := gen_next_recv_response cp (need_response_body (i_call f)) (close_flag f) (is_redirect f) in
-    fst g = option_map fst r /\
-    match r with
-    | Some (_, f') => add_all (i_reasons f) (snd g) = Ok (i_reasons f')
-    | None => snd g = []
-    end.
-Proof.
-  unfold recv_response_proceed, close_flag.
-  destruct (recv_response_can_proceed f) as [cp|e|s]; cbn [bind]; try discriminate.
-  intros H. exists cp. split; [reflexivity|]. cbv zeta. rewrite gen_next_recv_response_table.
-  destruct cp; cbn [negb] in *.
-  - destruct (need_response_body (i_call f)).
-    + cbn [set_phase c_reader] in H.
-      destruct (match c_reader (i_call f) with Some r0 => reader_is_close r0 | None => false end).
-      * destruct (add_reason (i_reasons f) CloseDelimitedBody) as [rs|e|s] eqn:Ha; cbn [bind] in H; try discriminate.
-        inversion H; subst. cbn [fst snd option_map add_all i_reasons]. rewrite Ha. cbn [bind]. split; reflexivity.
-      * cbn [bind] in H. inversion H; subst. split; reflexivity.
-    + inversion H; subst. rewrite is_redirect_set_call_holder.
-      destruct (is_redirect f); split; reflexivity.
-  - inversion H; subst. split; reflexivity.
-Qed.
-
-Lemma gen_next_recv_body_ok f r :
-  recv_body_proceed f = Ok r ->
-  exists cp, recv_body_can_proceed f = Ok cp /\ gen_next_recv_body cp (is_redirect f) = (option_map fst r, []).
-Proof.
-  unfold recv_body_proceed.
-  destruct (recv_body_can_proceed f) as [cp|e|s]; cbn [bind]; try discriminate.
-  intros H. exists cp. split; [reflexivity|]. rewrite gen_next_recv_body_table.
-  destruct cp; cbn [negb] in *.
-  - inversion H; subst. destruct (is_redirect f); reflexivity.
-  - inversion H; subst. reflexivity.
-Qed.
-
-Print Assumptions gen_next_send_request_table.
-Print Assumptions gen_next_await_100_table.
-Print Assumptions gen_next_send_body_table.
-Print Assumptions gen_next_recv_response_table.
-Print Assumptions gen_next_recv_body_table.
-Print Assumptions gen_next_send_request_ok.
-Print Assumptions gen_next_await_100_ok.
-Print Assumptions gen_next_send_body_ok.
-Print Assumptions gen_next_recv_response_ok.
-Print Assumptions gen_next_recv_body_ok.
-
-(* ------------------------------------------------------------------ Flow<Await100>::try_read_100 *)
-(** The whole function, translated with the fields of [self.inner] as parameters and the result of the zero-slot parse as a value of the
-    result monad (what the function looks at is the consumed count and the status). *)
-Definition parsed_of (x : res (option (N * response))) : res (option (N * N)) :=
-  match x with
-  | Ok (Some (used, r)) => Ok (Some (used, rs_status r))
-  | Ok None => Ok None
-  | Err e => Err e
-  | Panic s => Panic s
-  end.
-
-Lemma err_eqb_too_many e : err_eqb e HttpParseTooManyHeaders = true <-> e = HttpParseTooManyHeaders.
-Proof. destruct e; vm_compute; split; intros H; try reflexivity; try discriminate. Qed.
-
-Lemma gen_try_read_100_ok f input :
-  let g := gen_try_read_100 (i_reasons f) (i_should_send_body f) (i_await_100 f) (parsed_of (try_parse_response 0 input)) in
-  match try_read_100 f input with
-  | (f', Ok n) => g = Ok (i_reasons f', i_should_send_body f', i_await_100 f', n)
-  | (_, Err e) => g = Err e
-  | (_, Panic _) => exists s, g = Panic s
-  end.
-Proof.
-  cbv zeta. unfold try_read_100, gen_try_read_100, parsed_of, refuse, set_await.
-  destruct f as [c h rs0 ssb aw st loc]. cbn [i_reasons i_should_send_body i_await_100 i_call i_holder i_status i_location].
-  destruct (try_parse_response 0 input) as [[[used r]|]|e|s].
-  - destruct (N.eqb_spec (rs_status r) 100) as [E|E].
-    + destruct ssb; [reflexivity|eauto].
-    + destruct (add_reason rs0 Not100Continue) as [rs|e|s]; cbn [bind i_reasons i_should_send_body i_await_100]; [reflexivity|reflexivity|eauto].
-  - reflexivity.
-  - destruct (err_eqb e HttpParseTooManyHeaders) eqn:Ee.
-    + apply err_eqb_too_many in Ee. subst e.
-      destruct (add_reason rs0 Not100Continue) as [rs|e|s]; cbn [bind i_reasons i_should_send_body i_await_100]; [reflexivity|reflexivity|eauto].
-    + assert (Hne : e <> HttpParseTooManyHeaders) by (intros ->; vm_compute in Ee; discriminate).
-      destruct e; try reflexivity. congruence.
-  - eauto.
-Qed.
-Print Assumptions gen_try_read_100_ok.
-
-(* ------------------------------------------------------------------ Flow::new: the flags and the initial close reasons *)
-Definition is_v10 (v : version) : bool := match v with V10 => true | _ => false end.
-
-(** As a table (evaluated on every combination of flags): independent of how the source orders its statements. *)
-Lemma gen_flow_new_table h10 cc nb ex :
-  gen_flow_new h10 cc nb ex (Ok tt)
-  = Ok ((if h10 then [Http10] else []) ++ (if cc then [ClientConnectionClose] else []), nb, ex).
-Proof. destruct h10, cc, nb, ex; vm_compute; reflexivity. Qed.
-
-Lemma gen_flow_new_ok r f :
-  flow_new r = Ok f ->
-  gen_flow_new (is_v10 (rq_version r)) (headers_has (rq_headers r) (s2b "connection") (s2b "close"))
-               (need_request_body (rq_method r)) (headers_has (rq_headers r) (s2b "expect") (s2b "100-continue")) (Ok tt)
-  = Ok (i_reasons f, i_should_send_body f, i_await_100 f).
-Proof.
-  rewrite gen_flow_new_table. unfold flow_new, is_v10.
-  destruct (rq_version r); cbn [bind];
-    destruct (headers_has (rq_headers r) (s2b "connection") (s2b "close"));
-    vm_compute push_reason; cbn [bind]; intros H; inversion H; subst; reflexivity.
-Qed.
-Print Assumptions gen_flow_new_ok.
-Print Assumptions gen_flow_new_table.
-
-(* ------------------------------------------------------------------ Flow<RecvResponse>::try_response *)
-(** What the flow does with the call's answer: skip a delayed 100 while one is awaited, record status and the last Location, add the
-    server's Connection: close as a close reason, hand the response out. *)
-Lemma gen_try_response_ok f input c c' got :
-  as_recv_response f = Ok c ->
-  call_try_response c input = Ok (c', got) ->
-  match recv_try_response f input with
-  | Ok (f', used, orsp) =>
-      gen_try_response (i_reasons f) (i_await_100 f) (i_status f) (i_location f) (Ok got)
-      = Ok (i_reasons f', i_await_100 f', i_status f', i_location f', (used, orsp))
-  | Err e => gen_try_response (i_reasons f) (i_await_100 f) (i_status f) (i_location f) (Ok got) = Err e
-  | Panic _ => exists s, gen_try_response (i_reasons f) (i_await_100 f) (i_status f) (i_location f) (Ok got) = Panic s
-  end.
-Proof.
-  intros Hc Ht. unfold recv_try_response. rewrite Hc. cbn [bind]. rewrite Ht. cbn [bind].
-  unfold gen_try_response, resp_status, resp_last_location, resp_has_close, set_await, set_call.
-  destruct f as [c0 h rs0 ssb aw st loc]. cbn [i_reasons i_should_send_body i_await_100 i_call i_holder i_status i_location bind].
-  destruct got as [[used rsp]|]; [|reflexivity].
-  destruct (N.eqb_spec (rs_status rsp) 100) as [E|E]; cbn [andb].
-  - destruct aw; cbn [andb i_reasons i_should_send_body i_await_100 i_call i_holder i_status i_location].
-    + reflexivity.
-    + destruct (headers_has (hm_iter (rs_headers rsp)) (s2b "connection") (s2b "close")).
-      * destruct (add_reason rs0 ServerConnectionClose) as [rs|e|s]; cbn [bind i_reasons i_await_100 i_status i_location]; [reflexivity|reflexivity|eauto].
-      * cbn [bind i_reasons i_await_100 i_status i_location]. reflexivity.
-  - destruct (headers_has (hm_iter (rs_headers rsp)) (s2b "connection") (s2b "close")).
-    + destruct (add_reason rs0 ServerConnectionClose) as [rs|e|s]; cbn [bind i_reasons i_await_100 i_status i_location]; [reflexivity|reflexivity|eauto].
-    + cbn [bind i_reasons i_await_100 i_status i_location]. reflexivity.
-Qed.
-Print Assumptions gen_try_response_ok.
+(** Split into Gen2_equiv_flow_graph / _try100 / _new / _response (one per exported group, so that a change of one function disturbs
+    only the properties that are about it); this file re-exports them. *)
+From Hoot.proofs Require Export Gen2_equiv_flow_graph Gen2_equiv_flow_try100 Gen2_equiv_flow_new Gen2_equiv_flow_response.
